@@ -90,3 +90,5 @@ Lemma SE2_shapes :
   shape 3 3 (mat_of SE2_jacobian_boxplus) /\ shape 3 3 (mat_of SE2_jacobian_inverse) /\
   shape 2 3 (mat_of SE2_jacobian_self_oplus_point_wrt_self__R2) /\ shape 2 2 (mat_of SE2_jacobian_self_oplus_point_wrt_point__R2).
 Proof. unfold shape. repeat split; try reflexivity; repeat constructor. Qed.
+Lemma SE2_boxplus_jac_tan : tangent_ok SE2_boxplus (mat_of SE2_jacobian_boxplus) 6 3 3.
+Proof. tan_ring. Qed.
